@@ -909,3 +909,224 @@ def lang_table(ctx, rule):
                        f'match_lang: case "{what}" (meta elements {metas}, lang attributes {kw}) - the element is found to have '
                        f'language {got!r}, expected {exp!r}: the nearest lang attribute wins; otherwise the first <meta> carrying both '
                        f'http-equiv=content-language and a non-empty content, in any attribute order and letter case')
+
+
+# ---- evaluation context of a selector list: document-level gate, temporary prefix map, restoration ------------------------------
+def list_context_table(ctx, rule):
+    """match_selectors over (HTML-only list?, HTML document?, negated?, element in the HTML namespace?, a check fails?):
+    the gate depends on list and document only; inside an HTML-only list the checks see the internal prefix map and the
+    iframe restriction; after the call the matcher's own map and restriction are back, on every path."""
+    inv = ctx.consts
+    fnq = 'css_match.CSSMatch.match_selectors'
+    mod, fn = ctx.src.func(fnq)
+    xhtml = inv.folder.lookup('css_match', 'NS_XHTML')
+    bad = None
+    for list_html, doc_html, is_not, el_html, tag_ok, restrict0 in itertools.product((False, True), (False, True), (False, True),
+                                                                                    (False, True), (True, False), (False, True)):
+        orig_ns = {'p': 'urn:caller'}
+        me = Obj(_cls='css_match.CSSMatch', _name='self', namespaces=orig_ns, iframe_restrict=restrict0, is_html=doc_html,
+                 is_xml=not doc_html, has_html_namespace=False)
+        observed = []
+
+        def match_tag(el, tag, _me=me, _o=observed, _ok=tag_ok):
+            _o.append((dict(_me.get('namespaces')) if isinstance(_me.get('namespaces'), dict) else repr(_me.get('namespaces')),
+                       _me.get('iframe_restrict')))
+            return _ok
+        stubs = {f'self.{n}': (lambda *a, **k: True) for n in CHECKS}
+        stubs['self.match_tag'] = match_tag
+        q = ctx.src.find_method('css_match.CSSMatch', 'is_html_tag')
+        if q:
+            stubs[q] = lambda el, _v=el_html: _v
+        sel = Obj(_cls='css_types.Selector', _name='Selector', tag=None, ids=(), classes=(), attributes=(), nth=(), selectors=(),
+                  relation=Obj(_name='rel', __len__=0, __iter__=[], __bool__=False), rel_type=None, contains=(), lang=(), flags=0)
+        lst = Obj(_cls='css_types.SelectorList', _name='list', selectors=(sel,), is_not=is_not, is_html=list_html,
+                  __iter__=[sel], __len__=1)
+        try:
+            res = bool(call_function(ctx, fnq, [Obj(_name='el'), lst], {}, stubs, me))
+        except Raised as e:
+            res = f'raises {e.exc_name}'
+        except Unsupported as e:
+            raise AnalysisError(f'match_selectors: outside the evaluable fragment: {e}')
+        gate = (not list_html) or doc_html
+        exp = (tag_ok != is_not) if gate else False
+        exp_seen = [({'html': xhtml}, True)] if (gate and list_html) else ([(orig_ns, restrict0)] if gate else [])
+        restored = me.get('namespaces') is orig_ns and me.get('iframe_restrict') is restrict0
+        problems = []
+        if res != exp:
+            problems.append(f'the result is {res}, expected {exp}')
+        if observed != exp_seen:
+            problems.append(f'the checks ran {len(observed)} time(s) and saw (prefix map, iframe restriction) = {observed}, expected {exp_seen}')
+        if not restored:
+            problems.append(f'afterwards the matcher is left with prefix map {me.get("namespaces")!r} / iframe_restrict='
+                            f'{me.get("iframe_restrict")!r} instead of the caller\'s {orig_ns} / {restrict0}')
+        rule.instance({'html_only_list': list_html, 'html_document': doc_html, 'negated': is_not, 'element_in_html_namespace': el_html,
+                       'check_passes': tag_ok, 'iframe_restrict_before': restrict0, 'result': res, 'expected': exp,
+                       'restored': restored}, key=f'ctx|{list_html}|{doc_html}|{is_not}|{el_html}|{tag_ok}|{restrict0}', sample_cap=3)
+        if problems and bad is None:
+            bad = (list_html, doc_html, is_not, el_html, tag_ok, restrict0, problems)
+    rule.obligation(bad is None)
+    if bad is not None:
+        list_html, doc_html, is_not, el_html, tag_ok, restrict0, problems = bad
+        rule.violation('css_match.CSSMatch.match_selectors list context', mod.where(fn),
+                       f'match_selectors on {"an HTML-only" if list_html else "an ordinary"} {"negated " if is_not else ""}list in '
+                       f'{"an HTML" if doc_html else "a non-HTML"} document, element {"inside" if el_html else "outside"} the HTML namespace, '
+                       f'the compound {"passes" if tag_ok else "fails"}, iframe_restrict={restrict0} before the call: ' + '; '.join(problems)
+                       + '. An HTML-only list is evaluated exactly when the document is HTML (whatever the element), under the internal '
+                         'prefix map and iframe restriction, and the caller\'s context is restored on every path')
+
+
+# ---- one simple selector alone is a selector --------------------------------------------------------------------------------
+def single_token_table(ctx, rule):
+    """parse_selectors on a token sequence that consists of ONE simple selector of each kind: the compound it builds
+    counts as a selector (no "expected a selector" error, exactly one alternative, the constraint recorded)."""
+    pmod, pfn = ctx.src.func('css_parser.CSSParser.parse_selectors')
+    sl = Obj(_cls='css_types.SelectorList', _name='COMPILED_CUSTOM', selectors=(), is_not=False, is_html=False, __iter__=[], __len__=0)
+
+    def values(text):
+        return lambda rx_obj, s, *a: [match_obj({'value': text, 'split': None, 0: text})]
+    cases = [
+        ('tag', tok('tag', whole='a', tag_ns=None, tag_name='a'), 'tag', {}),
+        ('id', tok('id', whole='#a'), 'ids', {}),
+        ('class', tok('class', whole='.a'), 'classes', {}),
+        ('attribute', tok('attribute', whole='[a]', cmp=None, case=None, attr_ns=None, attr_name='a', value=None), 'attributes', {}),
+        ('pseudo_class :root', tok('pseudo_class', whole=':root', name=':root', open=None), 'flags', {}),
+        ('pseudo_class :checked', tok('pseudo_class', whole=':checked', name=':checked', open=None), 'selectors', {}),
+        ('pseudo_class :first-child', tok('pseudo_class', whole=':first-child', name=':first-child', open=None), 'nth', {}),
+        ('pseudo_class_custom', tok('pseudo_class_custom', whole=':--x', name=':--x'), 'selectors', {}),
+        ('pseudo_contains', tok('pseudo_contains', whole=':-soup-contains(a)', name=':-soup-contains', values='a'), 'contains',
+         {'re.Pattern.finditer': values('a')}),
+        ('pseudo_lang', tok('pseudo_lang', whole=':lang(en)', name=':lang', values='en'), 'lang', {'re.Pattern.finditer': values('en')}),
+        ('pseudo_dir', tok('pseudo_dir', whole=':dir(ltr)', name=':dir', dir='ltr'), 'flags', {}),
+        ('amp', tok('amp', whole='&'), 'flags', {}),
+    ]
+    recorded = []
+
+    def freeze_stub(**kw):
+        return None
+    for what, token, field, extra in cases:
+        stubs = dict(extra)
+        try:
+            it = iter([token])
+
+            def nxt(x):
+                try:
+                    return next(x)
+                except StopIteration:
+                    raise Raised('StopIteration')
+            stubs.update({'next': nxt, 'css_parser._Selector': lambda **kw: tables._sel_with(kw)})
+            res = call_function(ctx, 'css_parser.CSSParser.parse_selectors', [it, 0, 0], {}, stubs,
+                                parser_obj(custom={':--x': sl}))
+            out = describe_selector(res)
+            alts = out['list'] if isinstance(out, dict) else None
+            got = f'{len(alts)} alternative(s)' if alts is not None else repr(out)
+            ok = alts is not None and len(alts) == 1 and alts[0] != 'NULL'
+            if ok:
+                a = alts[0]
+                raw = res.get('selectors')[0]
+                present = {'tag': a['tag'] is not None, 'ids': bool(a['ids']), 'classes': bool(a['classes']), 'flags': bool(a['flags']),
+                           'selectors': bool(a['selectors']), 'attributes': bool(raw.get('attributes')), 'nth': bool(raw.get('nth')),
+                           'contains': bool(raw.get('contains')), 'lang': bool(raw.get('lang'))}
+                ok = present.get(field, False)
+                got += f', {field} {"recorded" if ok else "EMPTY"}'
+        except Raised as e:
+            ok, got = False, f'raises {e.exc_name}' + (f' {e.args_[0]!r}' if e.args_ and isinstance(e.args_[0], str) else '')
+        except Unsupported as e:
+            raise AnalysisError(f'parse_selectors on one {what} token: outside the evaluable fragment: {e}')
+        rule.instance({'single_token': what, 'outcome': got}, key='single|' + what)
+        rule.obligation(ok)
+        if not ok:
+            rule.violation(f'css_parser.CSSParser.parse_selectors single {what}', pmod.where(pfn),
+                           f'a selector that consists of one {what} simple selector alone: {got}; it must compile to one alternative with '
+                           f'its {field} recorded. A handler that does not report "a selector was seen" makes such a compound a syntax '
+                           f'error in ordinary lists and an empty (never matching) slot in forgiving lists like :is()')
+
+
+# ---- :dir(): directionality per the HTML Standard ---------------------------------------------------------------------------
+def dir_table(ctx, rule):
+    """Interpret match_dir (and find_bidi) on small abstract trees: element kind x dir attribute x text x context."""
+    from ..tables import el_obj, matcher_obj
+    inv = ctx.consts
+    LTR, RTL = inv.folder.lookup('css_types', 'SEL_DIR_LTR'), inv.folder.lookup('css_types', 'SEL_DIR_RTL')
+    fnq = 'css_match.CSSMatch.match_dir'
+    mod, fn = ctx.src.func(fnq)
+    bidi = {'L': 'L', 'R': 'R', 'A': 'AL', 'N': 'ON', '1': 'EN', ' ': 'WS'}
+
+    def setkids(node, kids):
+        node.set('contents', kids)
+        node.set('__iter__', kids)
+        node.set('__len__', len(kids))
+
+    def build(kind, dirv, text, pdir):
+        root = el_obj('html')
+        par = el_obj('div', parent=root, attrs=({'dir': pdir} if pdir else {}))
+        attrs = {}
+        name = kind
+        if kind.startswith('input'):
+            name, attrs['type'] = 'input', kind.split(':')[1]
+            if text:
+                attrs['value'] = ''.join(text)
+        if dirv is not None:
+            attrs['dir'] = dirv
+        el = el_obj(name, parent=par, attrs=attrs)
+        setkids(el, [] if kind.startswith('input') else list(text))
+        setkids(par, [el])
+        setkids(root, [par])
+        return root, el
+
+    def strong(chars):
+        for c in chars:
+            if bidi[c] in ('L', 'R', 'AL'):
+                return 'ltr' if bidi[c] == 'L' else 'rtl'
+        return None
+
+    def reference(kind, dirv, text, pdir):
+        d = dirv.lower() if dirv and dirv.lower() in ('ltr', 'rtl', 'auto') else None     # other values: the undefined state
+        parent_dir = pdir or 'ltr'          # the parent is a div below the root: its own attribute or the root's default
+        if d in ('ltr', 'rtl'):
+            return d
+        chars = ''.join(text)
+        texty = kind == 'textarea' or kind in ('input:text', 'input:tel')
+        if d == 'auto' and texty:
+            s_ = strong(chars)
+            if s_:
+                return s_
+            return 'ltr' if chars else parent_dir
+        if d == 'auto' or (kind == 'bdi' and d is None):
+            s_ = None if kind.startswith('input') else strong(chars)
+            return s_ or parent_dir
+        if kind == 'input:tel':
+            return 'ltr'
+        return parent_dir
+    kinds = ('div', 'bdi', 'textarea', 'input:text', 'input:tel', 'input:checkbox')
+    dirs = (None, 'ltr', 'RTL', 'auto', 'bogus')
+    texts = ((), ('N1',), ('N', 'L'), ('1R', 'L'), ('NA',))
+    bad = None
+    for kind, dirv, text, pdir in itertools.product(kinds, dirs, texts, (None, 'rtl', 'ltr')):
+        text = tuple(text)
+        root, el = build(kind, dirv, text, pdir)
+        me = matcher_obj(is_xml=False, is_html=True, root=root)
+        stubs = {'unicodedata.bidirectional': lambda c: bidi[c],
+                 'css_match.CSSMatch.supports_namespaces': lambda: False,
+                 'css_match._DocumentNav.is_navigable_string': lambda n: isinstance(n, str),
+                 'css_match._DocumentNav.is_special_string': lambda n: False}
+        got = {}
+        for name, flag in (('ltr', LTR), ('rtl', RTL)):
+            try:
+                got[name] = bool(call_function(ctx, fnq, [el, flag], {}, stubs, me))
+            except Raised as e:
+                got[name] = f'raises {e.exc_name}'
+            except Unsupported as e:
+                raise AnalysisError(f'match_dir: outside the evaluable fragment: {e}')
+        exp = reference(kind, dirv, text, pdir)
+        want = {'ltr': exp == 'ltr', 'rtl': exp == 'rtl'}
+        rule.instance({'element': kind, 'dir': dirv, 'text': list(text), 'parent_dir': pdir, ':dir(ltr)': got['ltr'], ':dir(rtl)': got['rtl'],
+                       'expected': exp}, key=f'dir|{kind}|{dirv}|{text}|{pdir}', sample_cap=4)
+        if got != want and bad is None:
+            bad = (kind, dirv, text, pdir, got, exp)
+    rule.obligation(bad is None)
+    if bad is not None:
+        kind, dirv, text, pdir, got, exp = bad
+        rule.violation('css_match.CSSMatch.match_dir table', mod.where(fn),
+                       f'match_dir: <{kind.replace(":", " type=")}{" dir=" + dirv if dirv else ""}> with text {list(text)} (L/R/A = strong '
+                       f'left/right/Arabic letter, N/1 = neutral/number) under a parent with dir={pdir}: :dir(ltr) is {got["ltr"]}, :dir(rtl) is '
+                       f'{got["rtl"]}; the HTML Standard gives directionality {exp} (exactly one of the two must hold)')
